@@ -248,7 +248,7 @@ package astnormalization
 // C03, injection of input field defaults: the schema default of a field is written only where the value has no such
 // field; a field that is present - also with an explicit null - keeps what the client sent.
 //@ func inputFieldDefaultInjectionVisitor.recursiveInjectInputFields
-//@   requires v != nil && v.definition != nil
+//@   assumes {the.visitor.was.bound.to.the.documents.by.EnterDocument} v != nil && v.definition != nil
 //@   ghost itervar g_absent bool = false
 //@   ghost itervar g_def int = 0
 //@   at call errors.Is: ghost g_absent = result
